@@ -230,7 +230,7 @@ def grid(acc, role):
 
 
 def plan(tier, seed):
-    n, k = (60, 14) if tier == "quick" else (3000, 16)
+    n, k = (150, 14) if tier == "quick" else (3000, 16)
     return [("grid", {"role": r}) for r in ("acceptor", "initiator")] + [("hyp_shard", {"n": n, "seed": derive_seed(seed, PROPERTY, i)}) for i in range(k)]
 
 
